@@ -418,7 +418,19 @@ func targets() []*target {
 		bufT("UnreadRune", "buf_unread_rune", nil, "bres err bstate", "", true),
 		bufT("UnreadByte", "buf_unread_byte", nil, "bres err bstate", "", true),
 		// the io.Writer is an oracle: it answers (w_m, w_e); what it was handed is the trace tr_
+		// the write side: s.buf == nil and growSlice are oracles (f_isnil, f_growSlice)
+		bufT("tryGrowByReslice", "buf_try_grow", []string{"(n : Z)"}, "bres (Z * bool) bstate", "", true),
+		bufT("grow", "buf_grow_int", []string{"(f_isnil : gslice -> bool)", "(f_growSlice : gslice -> Z -> bres gslice unit)", "(n : Z)"}, "bres Z bstate", "", true),
+		bufT("Grow", "buf_grow", []string{"(f_isnil : gslice -> bool)", "(f_growSlice : gslice -> Z -> bres gslice unit)", "(n : Z)"}, "bres unit bstate", "", true),
+		bufT("Write", "buf_write", []string{"(f_isnil : gslice -> bool)", "(f_growSlice : gslice -> Z -> bres gslice unit)", "(p : gslice)"}, "bres (Z * err) bstate", "", true),
+		bufT("WriteString", "buf_write_string", []string{"(f_isnil : gslice -> bool)", "(f_growSlice : gslice -> Z -> bres gslice unit)", "(str : bytes)"}, "bres (Z * err) bstate", "", true),
+		bufT("WriteByte", "buf_write_byte", []string{"(f_isnil : gslice -> bool)", "(f_growSlice : gslice -> Z -> bres gslice unit)", "(c : Z)"}, "bres err bstate", "", true),
+		bufT("WriteRune", "buf_write_rune", []string{"(f_isnil : gslice -> bool)", "(f_growSlice : gslice -> Z -> bres gslice unit)", "(r : Z)"}, "bres (Z * err) bstate", "", true),
 		bufT("WriteTo", "buf_write_to", []string{"(w : unit)", "(w_m : Z)", "(w_e : err)", "(tr_ : list bytes)"}, "bres (Z * err) (bstate * list bytes)", "", true),
+		// the io.Reader is a script (Model/Buffer.v rresp): an answer per call, delivered into the window it is handed,
+		// which must be s.buf[..:cap(s.buf)] (checked): the bytes land in the spare capacity of s.buf
+		bufT("ReadFrom", "buf_read_from", []string{"(f_isnil : gslice -> bool)", "(f_growSlice : gslice -> Z -> bres gslice unit)", "(r : unit)", "(script_ : list rresp)"},
+			"bres (Z * err) (bstate * list rresp)", "", true),
 	}
 }
 
@@ -469,6 +481,9 @@ func bufT(fn, coq string, params []string, result, final string, eff bool) *targ
 			"*PrintCtx.tryGrowByReslice": {state: "buf_try_grow s_buf s_off s_lastRead %0", bres: true, sub: []string{"s_buf", "s_off", "s_lastRead"}},
 			"*PrintCtx.grow":             {state: "buf_grow_int s_buf s_off s_lastRead f_isnil f_growSlice %0", bres: true, sub: []string{"s_buf", "s_off", "s_lastRead"}},
 			"growSlice":                  {state: "f_growSlice %0 %1", bres: true},
+			"*PrintCtx.WriteByte":        {state: "buf_write_byte s_buf s_off s_lastRead f_isnil f_growSlice %0", bres: true, sub: []string{"s_buf", "s_off", "s_lastRead"}, ignoreRes: true},
+			// utf8.AppendRune(b, r) where the encoding fits into the spare capacity of b (None: it would reallocate - not modelled)
+			"utf8.AppendRune":            {pure: "sl_append_in %0 (encode_rune %1)", partial: true},
 			"utf8.DecodeRune":            {res: "decode_rune_z (sl_bytes %0)"},
 			"utf8.DecodeRuneInString":    {res: "decode_rune_z %0"},
 		}}
@@ -485,11 +500,29 @@ func bufT(fn, coq string, params []string, result, final string, eff bool) *targ
 			t.calls["io.Writer.Write"] = callSpec{res: "(w_m, w_e)", ev: "sl_bytes %0"}
 			t.nilTest = map[string]string{"err": "err_is_enil"}
 		}
+		if fn == "ReadFrom" {
+			t.effects = append(t.effects, "script_")
+			st = "(s_buf, s_off, s_lastRead, script_)"
+			t.fuels = []string{"S (List.length script_)"} // every round takes one answer of the script, or ends on the empty script
+			t.calls["io.Reader.Read"] = callSpec{state: "rd_read s_buf script_ %0", bres: true, sub: []string{"s_buf", "script_"},
+				check: func(x *tr, c *ast.CallExpr) string {
+					if len(c.Args) == 1 {
+						if se, ok := c.Args[0].(*ast.SliceExpr); ok && src(se.X) == "s.buf" && se.High != nil && src(se.High) == "cap(s.buf)" && !se.Slice3 {
+							return ""
+						}
+					}
+					return "Read into something else than s.buf[..:cap(s.buf)]"
+				}}
+			t.nilTest = map[string]string{"err": "err_is_enil"}
+		}
 		if fn == "grow" {
 			t.nilTest = map[string]string{"gslice": "f_isnil"}
 		}
 		t.panicT, t.panicFmt, t.okfmt = "BRange "+st, "BPanic %s "+st, "BOk (%s) %s"
 		t.final = "BOk tt " + st
+		if fn == "ReadFrom" {
+			t.final = "BOk (n, err) " + st // (not reached: the loop has no exit but return and panic)
+		}
 		t.comment = "(BOk results state | BRange state | BPanic v state)"
 	}
 	return t
